@@ -9,7 +9,8 @@ def extraction_crosscheck(ctx, corpus_texts, cases):
     if fast is None or ref is None:
         ctx.ob("extraction:fast-vs-reference", "extraction", False, (m1 or "") + (m2 or "")); return
     # the reference extraction computes on Coq's inductive binary integers: keep to short runs
-    short = [c for c in cases if int(dict(c.settings).get("max_iter", "250")) <= 3] or cases
+    short = [c for c in cases if int(dict(c.settings).get("max_iter", "250")) <= 3 and not any(t in ("clamp",) for t in c.tags)
+             and all(pb["n"] <= 3 for pb in c.pbs.values())] or cases[:1]
     small = sorted(short, key=lambda c: len(c.text()))[: (3 if ctx.quick() else 8)]
     txt = "".join(corpus_texts) + "".join(c.text() for c in small)
     cf = os.path.join(ctx.work, "xcheck.cases"); open(cf, "w").write(txt)
